@@ -506,6 +506,60 @@ func runC06(c *cli.Ctx) error {
 		return err
 	}
 
+	// ---- stream buckets: many age buckets (around the 8-bit boundary), clock jumps across hundreds of buckets ----
+	w = emit.NewWriter(c.Out, "C06", "buckets")
+	bigN := []int64{64, 255, 256, 257, 300, 1000}
+	for i := 0; i < 48*c.Scale; i++ {
+		o := c06Opts{objs: c06Objs(r)}
+		n := bigN[i%len(bigN)]
+		o.ageBuckets = uint32(n)
+		d := []int64{1, 3, 10, 1000, 1000000}[r.Intn(5)]
+		o.maxAge = d*n + int64(r.Intn(int(n)))
+		o.bufCap = []uint32{1, 2, 5, 0}[r.Intn(4)]
+		t0 := c06T0(r)
+		var ops []c06Op
+		v := 1.0
+		rounds := 2 + r.Intn(4)
+		for j := 0; j < rounds; j++ {
+			for q := 0; q < 1+r.Intn(3); q++ {
+				ops = append(ops, c06Op{kind: 0, v: v})
+				v++
+			}
+			// jump m buckets: just past 255/256/257, just inside / at / past the whole window, or a few
+			var m int64
+			switch r.Intn(7) {
+			case 0:
+				m = 254 + int64(r.Intn(6))
+			case 1:
+				m = n - 2 + int64(r.Intn(4))
+			case 2:
+				m = n/2 + int64(r.Intn(5))
+			case 3:
+				m = 2*n + int64(r.Intn(5))
+			case 4:
+				m = int64(r.Intn(4))
+			case 5:
+				m = 510 + int64(r.Intn(6))
+			default:
+				m = 1 + int64(r.Intn(int(n)))
+			}
+			dt := m*d + int64(r.Intn(3)) - 1
+			if dt < 0 {
+				dt = 0
+			}
+			ops = append(ops, c06Op{kind: 1, dt: dt})
+			if r.Chance(1, 2) {
+				ops = append(ops, c06Op{kind: 0, v: v})
+				v++
+			}
+			ops = append(ops, c06Op{kind: 2})
+		}
+		c06Emit(w, o, t0, ops, fmt.Sprintf("buckets:%d", n), "clock:jumps-across-hundreds-of-buckets")
+	}
+	if err := w.Flush(); err != nil {
+		return err
+	}
+
 	// ---- stream big: windows beyond the estimator's 500-sample buffer ----
 	w = emit.NewWriter(c.Out, "C06", "big")
 	for i := 0; i < 24*c.Scale; i++ {
